@@ -80,9 +80,9 @@ Qed.
 
 Lemma rtsp_meta_shape s p s' : rtsp_meta acfg s p = Ok s' -> rs_cache s' = rs_cache s /\ rs_done s' = rs_done s.
 Proof.
-  unfold rtsp_meta.
+  unfold rtsp_meta, rtsp_meta_gen.
   destruct (fst (parse_metadata acfg p)) as [meta|e|site]; [|intro X; inversion X; split; reflexivity|discriminate].
-  destruct (pairs_find _ meta) as [[bits|b|str|l]|]; intro X; inversion X; try (split; reflexivity).
+  intro X. bstep X as codec E1. bstep X as sr E2. inversion X. destruct codec as [bits|]; [|split; reflexivity].
   destruct (_ =? 8); [split; reflexivity|]. destruct (_ =? 7); [split; reflexivity|]. destruct (_ =? 13); split; reflexivity.
 Qed.
 
